@@ -51,6 +51,33 @@ func (c05) Gen(seed int64, tier string, emit func(any)) {
 		k++
 		e(c)
 	})
+	// tryerr / trypipeerr: every chain of 1..3 (4) units over {ok, fail, stderr-only
+	// with exit 0, stderr-only | forwarder, ok | stderr-writing forwarder} ...
+	errUnits := []string{"o", "x", "s", "sO", "os"}
+	maxErr := 3
+	if tier == "thorough" {
+		maxErr = 4
+	}
+	for _, m := range []string{"tryerr", "trypipeerr"} {
+		for n := 1; n <= maxErr; n++ {
+			rmExhaustive(rng, m, n, errUnits, rmJoiners, e)
+		}
+	}
+	// ... every chain of 1..2 (3) single commands over {ok, fail, stderr-only, both}
+	// under `runmode tryerr|trypipeerr function`, and random longer chains
+	for _, m := range []string{"fntryerr", "fntrypipeerr"} {
+		for n := 1; n <= maxErr-1; n++ {
+			rmExhaustive(rng, m, n, []string{"o", "x", "s", "b"}, rmJoiners, e)
+		}
+	}
+	errModes := []string{"tryerr", "trypipeerr", "fntryerr", "fntrypipeerr"}
+	nerr := 600
+	if tier == "thorough" {
+		nerr = 8000
+	}
+	for i := 0; i < nerr; i++ {
+		e(rmRandomErr(rng, errModes[rng.Intn(4)], 2+rng.Intn(8)))
+	}
 	// random longer chains with 1-3 stage pipelines
 	nrand, maxLen := 900, 9
 	if tier == "thorough" {
